@@ -52,7 +52,10 @@ func sxCard(cs cardSpec) string {
 }
 
 func canonGoCard(c vcard.Card) string {
-	type e struct{ k string; vs []string }
+	type e struct {
+		k  string
+		vs []string
+	}
 	var es []e
 	for k, fs := range c {
 		if len(fs) == 0 {
